@@ -12,7 +12,7 @@ with kind `state` (a line of GET /api/bot/game/stream/{gameId}: gameFull, gameSt
 About 85 % of the documents are valid documents of every message kind: every enumerated key (status, variant, speed,
 perf, source, colour, title, ...), random subsets of the optional fields (absent or, where the API does so, null), unknown
 extra fields, JSON escapes (\\n, \\", \\\\, \\/, \\uXXXX, surrogate pairs) in free-text fields, random member order and
-white space, move strings of 0..300 plausible UCI moves including promotions (e7e8q) and castling (e1g1).
+white space, move strings of 0..600 plausible UCI moves including promotions (e7e8q) and castling (e1g1).
 About 15 % are malformed / mutated: missing required field, wrong type, number out of range, unknown enum key, duplicate
 field, truncated text, bad escapes, trailing garbage, irregular separators in the move string, unknown challenge rule.
 
@@ -121,10 +121,13 @@ def moves_string(rng):
         n = 0
     elif r < 0.5:
         n = rng.randint(1, 10)
-    elif r < 0.9:
+    elif r < 0.85:
         n = rng.randint(11, 120)
-    else:
+    elif r < 0.95:
         n = rng.randint(121, 300)
+    else:
+        # very long games: Lichess ends a game after 300 MOVES = 600 plies (and the bot must still decode every ply)
+        n = rng.choice([299, 300, 301, 302, 400, 599, 600, rng.randint(301, 600)])
     return " ".join(uci_move(rng) for _ in range(n))
 
 
